@@ -246,7 +246,11 @@ def rule_check_layout(rep: Report, fi: FuncInfo) -> int:
         if masked:
             rep.violation("CHECK-LAYOUT", fi, construct, f"the columns are selected with the boolean mask `{masked[0]}`: a mask assigns in ascending POSITION order, so column j of P^T lands on the j-th smallest information position instead of on information_set[j]; for an index list that is not sorted G.H^T != 0", node=fi.node)
         else:
-            rep.undecided("CHECK-LAYOUT", fi, construct, "layout code not recognised (expected H[:, parity_set] = I; H[:, information_set] = P^T)", node=fi.node)
+            est_, ed_ = check_layout_evaluated(fi)
+            if est_ is not None:
+                rep.add("CHECK-LAYOUT", fi, f"{fi.qualname} evaluated for six information sets", est_, ed_, node=fi.node)
+            else:
+                rep.undecided("CHECK-LAYOUT", fi, construct, f"layout code not recognised (expected H[:, parity_set] = I; H[:, information_set] = P^T) and not evaluable ({ed_})", node=fi.node)
     asg = [s for s in stmts_of(fi.body) if isinstance(s, ast.Assign) and attr_chain(s.targets[0]) == "self._check_matrix"]
     if ok_p and ok_i:
         okh = len(asg) == 1 and isinstance(asg[0].value, ast.Name) and all(isinstance(s.targets[0].value, ast.Name) and s.targets[0].value.id == asg[0].value.id for s in stores)
@@ -254,7 +258,48 @@ def rule_check_layout(rep: Report, fi: FuncInfo) -> int:
     return 2
 
 
+def check_layout_evaluated(fi: FuncInfo):
+    """A `_compute_check_matrix` override evaluated (own arithmetic) for a (5, 3) code with a parity block of distinct
+    rows and the information sets left, right, a PERMUTED left block, a permuted right block and two scattered lists:
+    the result must carry row j of P as the column at information_set[j] and the i-th unit vector at parity_set[i]
+    (then G H^T = P + P = 0 for the generator laid out on the same sets).  Returns (status, detail) or (None, reason)."""
+    from ..constfold import Unfoldable
+    from ..frag import FragRaise, FragReturn, run_fragment
+
+    k, r, n = 3, 2, 5
+    P = [[1.0, 0.0], [0.0, 1.0], [1.0, 1.0]]
+    funcs = {f"self.{nm}": m.node for nm, m in (fi.cls.methods.items() if fi.cls else []) if nm not in ("__init__", "forward", fi.name)}
+    cases = 0
+    for info in ([0, 1, 2], [2, 3, 4], [1, 0, 2], [4, 2, 3], [4, 0, 2], [0, 3, 1]):
+        parity = [c for c in range(n) if c not in info]
+        attrs = {"self._dimension": k, "self._redundancy": r, "self._length": n, "self.code_dimension": k, "self.redundancy": r, "self.code_length": n, "self.information_set": list(info), "self._information_set": list(info), "self.parity_set": list(parity), "self._parity_set": list(parity), "self.parity_submatrix": [list(x) for x in P], "self._parity_submatrix": [list(x) for x in P], "self._dtype": "torch.float32", "self.device": "cpu"}
+        H = None
+        try:
+            env = run_fragment(fi.body, {}, attrs, funcs=funcs, materialise=True, max_steps=200000, attrs_live=True)
+            H = attrs.get("self._check_matrix")
+        except FragReturn as ret:
+            H = ret.value if ret.value is not None else attrs.get("self._check_matrix")
+        except (Unfoldable, FragRaise, TypeError, IndexError, ValueError, KeyError) as exc:
+            return None, f"not evaluable for information_set={info} ({exc})"
+        if not (isinstance(H, list) and len(H) == r and all(isinstance(row, list) and len(row) == n for row in H)):
+            return None, f"the result for information_set={info} is not an {r} x {n} matrix"
+        want = [[0.0] * n for _ in range(r)]
+        for i_, c_ in enumerate(parity):
+            want[i_][c_] = 1.0
+        for j_, c_ in enumerate(info):
+            for i_ in range(r):
+                want[i_][c_] = P[j_][i_]
+        if [[float(x) for x in row] for row in H] != want:
+            return VIOLATION, f"information_set = {info} (parity positions {parity}), P = {P}: the check matrix is {[[int(x) for x in row] for row in H]}; row j of P belongs in the column at information_set[j] and the identity on the parity positions: {[[int(x) for x in row] for row in want]} - the encoder and the published generator follow the LISTED order of the information positions, so G H^T != 0 here and code words get non-zero syndromes"
+        cases += 1
+    return OK, f"{cases} information sets (left, right, permuted left / right blocks, scattered lists): P^T on the information positions in listed order, identity on the parity positions"
+
+
 def rule_rs_layout(rep: Report, fi: FuncInfo) -> None:
+    est_, ed_ = check_layout_evaluated(fi)
+    if est_ is not None:
+        rep.add("CHECK-LAYOUT", fi, f"{fi.qualname} evaluated for six information sets", est_, ed_, node=fi.node)
+        return
     ifs = [s for s in fi.body if isinstance(s, ast.If)]
     ok = len(ifs) == 1 and "self.information_set == torch.arange(self._dimension)" in unparse(ifs[0].test)
     rep.expect(ok, "CHECK-LAYOUT", fi, f"layout test: {unparse(ifs[0].test)[:140] if ifs else '?'}", "layout decided by comparing the index tensor with arange (a live test)", "layout test changed")
